@@ -665,8 +665,18 @@ func keyTokenIndex(e *Env, v ssa.Value, depth int) (LE, bool) {
 }
 
 // parserTables: what the ESDT-transfer parser binds to the exported fields, per side.
+// parserPresence: where the parser stores the attached function, with the argument position it reads (filled by parserTables)
+type presenceSite struct {
+	e  *Env
+	st *ssa.Store
+	l  LE
+}
+
+var parserPresence []presenceSite
+
 func parserTables(c *Ctx, penv *Env) (map[string]roleTable, []string) {
 	tabs := map[string]roleTable{"sender": {}, "destination": {}}
+	parserPresence = nil
 	var problems []string
 	roleOf := map[string]string{"ESDTTokenName": "token", "ESDTTokenNonce": "number", "ESDTValue": "value", "RcvAddr": "receiver", "CallFunction": "callFunction", "CallArgs": "callArgsFrom"}
 	overwrittenOnSender := false
@@ -783,6 +793,9 @@ func parserTables(c *Ctx, penv *Env) (map[string]roleTable, []string) {
 						}
 					default:
 						continue
+					}
+					if role == "callFunction" && idx != nil {
+						parserPresence = append(parserPresence, presenceSite{e, x, l})
 					}
 					sides := []string{"sender", "destination"}
 					if role == "receiver" {
@@ -957,6 +970,31 @@ func c10r3(c *Ctx) {
 		for _, pr := range append(lp, pp...) {
 			c.Fail(rule, "undecided", FuncName(pf), g.name+": role extraction", c.P.Pos(pf.Pos()), pr)
 		}
+		// the attached function is reported whenever it is there: given an argument at the position the parser reads it from,
+		// every successful path of the routine (and of each helper on the way) passes the store
+		for _, ps := range parserPresence {
+			assume := []Fact{{Lin: true, Pos: true, LE: leAtom("len(P:args)").minus(ps.l).addK(-1)}}
+			construct := g.name + ": the attached function is reported whenever the argument is there"
+			miss := ""
+			var in ssa.Instruction = ps.st
+			for env := ps.e; env != nil; env = env.Parent {
+				if w := passesUnder(env, in, assume); w != "" {
+					miss = w
+					break
+				}
+				if env.Fn == penv.Fn || env.Call == nil {
+					break
+				}
+				in = env.Call
+			}
+			if miss == "" {
+				c.OK(rule, FuncName(pf), construct, c.P.InstrPos(ps.st), "given "+assume[0].Key()+" every successful path passes the store")
+			} else {
+				c.FailX(Oblig{Rule: rule, Func: FuncName(pf), Construct: construct, Pos: c.P.InstrPos(ps.st), Kind: "violation",
+					Detail:   "with " + assume[0].Key() + " (the function name is among the arguments) " + miss + " without storing CallFunction: the ledger runs the attached call, the parser reports none",
+					Expected: "CallFunction is stored whenever len(args) exceeds the position it is read from"})
+			}
+		}
 		for _, side := range []string{"sender", "destination"} {
 			for _, role := range []string{"token", "number", "value", "receiver", "callFunction", "callArgsFrom"} {
 				l, p := lt[side][role], pt[side][role]
@@ -995,6 +1033,55 @@ func c10r3(c *Ctx) {
 			}
 		}
 	}
+}
+
+// passesUnder: under the assumption every successful return of the function is reached only through the instruction's
+// block; otherwise a description of the path that avoids it.
+func passesUnder(env *Env, in ssa.Instruction, assume []Fact) string {
+	blk := in.Block()
+	if blk == env.Fn.Blocks[0] {
+		return ""
+	}
+	cut := map[edge]bool{}
+	for ed, fs := range env.EdgeFactsUnder(assume) {
+		for _, f := range fs {
+			if f.Lin && f.LE.isConst() && f.LE.k < 0 {
+				cut[ed] = true
+			}
+			for _, a := range assume {
+				if contradicts(f, a) {
+					cut[ed] = true
+				}
+			}
+		}
+	}
+	for _, p := range blk.Preds {
+		cut[edge{p, blk}] = true
+	}
+	rets := returnsOf(env.Fn)
+	returnsErr := false
+	for _, r := range rets {
+		if n := len(r.Results); n > 0 && isErrorType(r.Results[n-1].Type()) {
+			returnsErr = true
+		}
+	}
+	for _, r := range rets {
+		if returnsErr && !isSuccessReturn(r) {
+			continue
+		}
+		if r.Block() == blk {
+			continue
+		}
+		if returnsErr {
+			for ed := range errorEdges(r) {
+				cut[ed] = true
+			}
+		}
+		if reachableAvoiding(env.Fn.Blocks[0], r.Block(), cut) {
+			return FuncName(env.Fn) + " reaches its return at " + env.P.InstrPos(r) + " (" + strings.Join(pathAvoiding(env.Fn.Blocks[0], r.Block(), cut), "→") + ")"
+		}
+	}
+	return ""
 }
 
 // forwardsLeadingArgs: below the entry point some emitter appends Arguments[:k] to the outgoing argument list.
